@@ -427,7 +427,104 @@ pub fn random_pos(rng: &mut Rng) -> (usize, usize) {
     }
 }
 
+
+/// structured adversarial iterator inputs shared by C02 / C04 / C08: ranges wholly blocked by the flop, ranges whose
+/// combos all share one card (so whole turn rows / river columns are blocked), scope ends inside such rows,
+/// players blocking each other completely
+pub fn adversarial_iter_cases(rng: &mut Rng, n: usize) -> Vec<IterCase> {
+    let one = 0x3F800000u32;
+    let mut out = vec![];
+    for i in 0..n {
+        let flop = random_flop(rng);
+        // deck index -> card code for this flop
+        let deck: Vec<usize> = (0..52).filter(|c| !flop.contains(c)).collect();
+        match i % 6 {
+            0 => {
+                // a player whose every combo holds a flop card (non-empty range, nothing playable), alone or beside another player
+                let k = 1 + rng.below(3) as usize;
+                let mut es = vec![];
+                while es.len() < k {
+                    let f = flop[rng.below(3) as usize];
+                    let o = rng.below(52) as usize;
+                    if o != f && !es.iter().any(|e: &(usize, u32)| e.0 == combo_code(f, o)) {
+                        es.push((combo_code(f, o), W_PALETTE[rng.below(6) as usize]));
+                    }
+                }
+                let mut ranges = vec![es];
+                if rng.below(2) == 0 {
+                    let pos = rng.below(2) as usize;
+                    let sz = 1 + rng.below(3) as usize;
+                    let rr = random_range(rng, sz, false);
+                    ranges.insert(pos, rr);
+                }
+                let scope = if rng.below(2) == 0 { None } else { let a = random_pos(rng); let b = random_pos(rng); Some(if a <= b { (a.0, a.1, b.0, b.1) } else { (b.0, b.1, a.0, a.1) }) };
+                out.push(IterCase { mode: "digest", nextra: 2, flop, scope, rescope: false, ranges });
+            }
+            1 | 2 => {
+                // every combo of a player shares the card at deck index x: row x and column x are blocked;
+                // scope ends / starts inside the blocked row, just before and just after it
+                let x = match rng.below(4) { 0 => 0, 1 => 47, 2 => 48, _ => rng.below(49) as usize };
+                let card = deck[x];
+                let k = 1 + rng.below(3) as usize;
+                let mut es = vec![];
+                while es.len() < k {
+                    let o = rng.below(52) as usize;
+                    if o != card && !es.iter().any(|e: &(usize, u32)| e.0 == combo_code(card, o)) {
+                        es.push((combo_code(card, o), one));
+                    }
+                }
+                let osz = 1 + rng.below(3) as usize;
+                let other = random_range(rng, osz, false);
+                let row = std::cmp::min(x, 47);
+                let inside = |rng: &mut Rng| -> (usize, usize) { (row, row + 1 + rng.below((48 - row) as u64) as usize) };
+                let a = if rng.below(2) == 0 { (0, 1) } else { random_pos(rng) };
+                let b = inside(rng);
+                let (a, b) = if a <= b { (a, b) } else { (b, a) };
+                out.push(IterCase { mode: "digest", nextra: 2, flop, scope: Some((a.0, a.1, b.0, b.1)), rescope: false, ranges: vec![es.clone(), other.clone()] });
+                // the complementary piece: from inside the blocked row to the end
+                out.push(IterCase { mode: "digest", nextra: 1, flop, scope: Some((b.0, b.1, 48, 49)), rescope: false, ranges: vec![other, es] });
+            }
+            3 => {
+                // two players holding the same single combo (everything blocked), or fully overlapping ranges
+                let rsz = 1 + rng.below(2) as usize;
+                let r = random_range(rng, rsz, true);
+                out.push(IterCase { mode: "digest", nextra: 2, flop, scope: None, rescope: false, ranges: vec![r.clone(), r] });
+            }
+            4 => {
+                // one player's combos all blocked by the other player's single combo
+                let a = rng.below(52) as usize;
+                let mut b = rng.below(52) as usize;
+                if b == a { b = (a + 1) % 52; }
+                let single = vec![(combo_code(a, b), one)];
+                let mut es = vec![];
+                while es.len() < 3 {
+                    let o = rng.below(52) as usize;
+                    let c = if rng.below(2) == 0 { a } else { b };
+                    if o != a && o != b && !es.iter().any(|e: &(usize, u32)| e.0 == combo_code(c, o)) {
+                        es.push((combo_code(c, o), one));
+                    }
+                }
+                out.push(IterCase { mode: "digest", nextra: 1, flop, scope: None, rescope: false, ranges: vec![single, es] });
+            }
+            _ => {
+                // scope of a single position / two positions around a row change
+                let t = rng.below(47) as usize;
+                let ranges = vec![random_range(rng, 2, false), random_range(rng, 2, false)];
+                out.push(IterCase { mode: "full", nextra: 2, flop, scope: Some((t, 48, t + 1, t + 2)), rescope: false, ranges: ranges.clone() });
+                out.push(IterCase { mode: "full", nextra: 2, flop, scope: Some((t, 47, t + 1, t + 3)), rescope: true, ranges });
+            }
+        }
+    }
+    out
+}
+
 pub fn gen_iter_c02(tier: &str, rng: &mut Rng, w: &mut dyn Write) {
+    // C02 speaks of the unscoped enumeration: scoped inputs belong to C04's generator
+    for mut c in adversarial_iter_cases(rng, if tier == "thorough" { 1200 } else { 120 }) {
+        c.scope = None;
+        c.rescope = false;
+        emit_iter(w, &c);
+    }
     let thorough = tier == "thorough";
     // the D2 witness shape: two players sharing a card
     emit_iter(w, &IterCase { mode: "digest", nextra: 1, flop: [49, 50, 51], scope: None, rescope: false,
@@ -479,23 +576,24 @@ pub fn gen_iter_c02(tier: &str, rng: &mut Rng, w: &mut dyn Write) {
         }
         emit_iter(w, &IterCase { mode: "digest", nextra: 1, flop, scope: None, rescope: false, ranges });
     }
-    // range-size boundaries of the (formerly u8) odometer: one wide player, a few rows of positions
-    for &size in &[255usize, 256, 257, 390, 1326] {
+    // range-size boundaries of the (formerly u8) odometer: one wide player, full enumeration
+    for &size in &[255usize, 256, 257, 390] {
         let flop = random_flop(rng);
-        emit_iter(w, &IterCase { mode: "digest", nextra: 1, flop, scope: Some((0, 1, 1, 10)), rescope: false, ranges: vec![random_range(rng, size, true)] });
+        emit_iter(w, &IterCase { mode: "digest", nextra: 1, flop, scope: None, rescope: false, ranges: vec![random_range(rng, size, true)] });
     }
-    for &size in &[256usize, 257, 300] {
+    // two players, the wide one in either seat (kept affordable by a tiny second range)
+    for &size in &[256usize, 257] {
         let flop = random_flop(rng);
-        emit_iter(w, &IterCase { mode: "digest", nextra: 1, flop, scope: Some((0, 1, 0, 9)), rescope: false,
-            ranges: vec![random_range(rng, 2, true), random_range(rng, size, true)] });
+        emit_iter(w, &IterCase { mode: "digest", nextra: 1, flop, scope: None, rescope: false,
+            ranges: vec![random_range(rng, 1, true), random_range(rng, size, true)] });
         let flop = random_flop(rng);
-        emit_iter(w, &IterCase { mode: "digest", nextra: 1, flop, scope: Some((47, 48, 48, 49)), rescope: false,
-            ranges: vec![random_range(rng, size, true), random_range(rng, 3, true)] });
+        emit_iter(w, &IterCase { mode: "digest", nextra: 1, flop, scope: None, rescope: false,
+            ranges: vec![random_range(rng, size, true), random_range(rng, 1, true)] });
     }
-    // one unscoped wide run (model vs implementation only; the oracle would dominate the run time)
+    // all 1326 combos (model vs implementation only; the oracle would dominate the run time)
     {
         let flop = random_flop(rng);
-        emit_iter(w, &IterCase { mode: "digest-nospec", nextra: 1, flop, scope: None, rescope: false, ranges: vec![random_range(rng, 300, true)] });
+        emit_iter(w, &IterCase { mode: "digest-nospec", nextra: 1, flop, scope: None, rescope: false, ranges: vec![all_combos().into_iter().map(|c| (c, 0x3F800000)).collect()] });
     }
     if thorough {
         let flop = random_flop(rng);
@@ -517,6 +615,9 @@ pub fn gen_iter_c02(tier: &str, rng: &mut Rng, w: &mut dyn Write) {
 
 pub fn gen_iter_c04(tier: &str, rng: &mut Rng, w: &mut dyn Write) {
     let thorough = tier == "thorough";
+    for c in adversarial_iter_cases(rng, if thorough { 3000 } else { 240 }) {
+        emit_iter(w, &c);
+    }
     let n = if thorough { 6000 } else { 400 };
     for i in 0..n {
         let flop = random_flop(rng);
@@ -531,6 +632,14 @@ pub fn gen_iter_c04(tier: &str, rng: &mut Rng, w: &mut dyn Write) {
             ranges.push(random_range(rng, sz, false));
         }
         emit_iter(w, &IterCase { mode: if i % 5 == 0 { "full" } else { "digest" }, nextra: 3, flop, scope: Some((a.0, a.1, b.0, b.1)), rescope: i % 7 == 0, ranges });
+    }
+    // wide ranges under scopes (sizes around the old u8 limit)
+    for &size in &[255usize, 256, 257, 390, 1326] {
+        let flop = random_flop(rng);
+        emit_iter(w, &IterCase { mode: "digest", nextra: 1, flop, scope: Some((0, 1, 1, 10)), rescope: false, ranges: vec![random_range(rng, size, true)] });
+        let flop = random_flop(rng);
+        emit_iter(w, &IterCase { mode: "digest", nextra: 1, flop, scope: Some((47, 48, 48, 49)), rescope: false,
+            ranges: vec![random_range(rng, size, true), random_range(rng, 3, true)] });
     }
     // chains: consecutive scopes cut at seeded positions (each piece is compared with the specification's piece)
     for _ in 0..(if thorough { 300 } else { 25 }) {
@@ -595,6 +704,11 @@ pub fn gen_iter_c08(tier: &str, rng: &mut Rng, w: &mut dyn Write) {
     // a blocked run that ends the enumeration (the last rows hold the blocked card): flop of aces, player holds deuces
     emit_iter(w, &IterCase { mode: "digest-nospec", nextra: 1, flop: [0, 1, 2], scope: Some((46, 47, 48, 49)), rescope: false,
         ranges: vec![vec![(combo_code(50, 51), one)], wide.clone()] });
+    // structured adversarial inputs (ranges wholly blocked by the flop, shared-card ranges, mutual blocking)
+    for mut c in adversarial_iter_cases(rng, if thorough { 300 } else { 36 }) {
+        c.mode = "digest-nospec";
+        emit_iter(w, &c);
+    }
     // everything blocked: both players hold the same single combo
     emit_iter(w, &IterCase { mode: "digest-nospec", nextra: 1, flop, scope: None, rescope: false,
         ranges: vec![vec![(combo_code(0, 4), one)], vec![(combo_code(0, 4), one)]] });
